@@ -3,4 +3,5 @@ pub mod checks;
 pub mod explore;
 pub mod wgen;
 pub mod report;
+pub mod tmode;
 pub mod world;
